@@ -88,6 +88,71 @@ Theorem balance_rows_amounts :
 Proof. exact HP.Proofs.AssemblyBalance.balance_rows_amounts. Qed.
 Print Assumptions balance_rows_amounts.
 
+(** after fix 3cc3ec3 ([--collapse] / [--collapse-last] join a category with its
+    only sub-category only while their totals are Go-equal), for EVERY log -
+    a logged name may be a path-prefix of another: in every mode the visible
+    category paths, each taken once with the amount of the row in which its
+    last segment is printed ([shown_paths]), are the non-empty prefixes of the
+    logged paths, each once, in strictly increasing order, each with an amount
+    linked by Go-equalities to the specified total of that path *)
+Theorem balance_rows_show_every_total :
+  forall (NM : Num) (es : list (bytes * T NM)) (pi : list bytes -> list bytes) (collapse collapse_last : bool),
+    (forall l, Permutation (pi l) l) ->
+    let shown := shown_paths NM (balance_rows NM pi collapse collapse_last (tree_add_all NM (empty_root NM) es)) in
+    NoDup (map fst shown) /\
+    StronglySorted (fun p q => path_ltb p q = true) (map fst shown) /\
+    (forall p y, In (p, y) shown ->
+       p <> [] /\ (exists f q, In (f, q) es /\ is_prefix_path p (segs f) = true) /\
+       go_eq_chain NM y (total_at NM es p)) /\
+    (forall p, p <> [] -> (exists f q, In (f, q) es /\ is_prefix_path p (segs f) = true) ->
+       exists y, In (p, y) shown /\ go_eq_chain NM y (total_at NM es p)).
+Proof. exact HP.Proofs.AssemblyBalance.balance_rows_show_every_total. Qed.
+Print Assumptions balance_rows_show_every_total.
+
+(** ... in particular the amount of a row whose label joins several segments is
+    (Go-)equal to the specified total of EVERY category path on the joined
+    part ([go_eq_transitive]: true of float64 and of exact numbers,
+    Props/C03_print.v): no amount is hidden by joining *)
+Theorem balance_joined_row_totals :
+  forall (NM : Num) (es : list (bytes * T NM)) (pi : list bytes -> list bytes) (collapse collapse_last : bool),
+    (forall l, Permutation (pi l) l) ->
+    forall pp own y,
+      In (pp, own, y) (decode_own NM (balance_rows NM pi collapse collapse_last (tree_add_all NM (empty_root NM) es))) ->
+      forall o, In o (BalancePrintSpec.prefixes own) ->
+        go_eq_chain NM y (total_at NM es (pp ++ o)) /\
+        (go_eq_transitive NM -> y = total_at NM es (pp ++ o) \/ t_eqb NM y (total_at NM es (pp ++ o)) = true).
+Proof. exact HP.Proofs.AssemblyBalance.balance_joined_row_totals. Qed.
+Print Assumptions balance_joined_row_totals.
+
+(** ... [balance_rows_amounts] for every log (no [prefix_free]), up to Go-equality:
+    every row of every mode, joined inner rows included, names a logged
+    category path and carries an amount (Go-)equal to its specified total *)
+Theorem balance_rows_amounts_any_log :
+  forall (NM : Num) (es : list (bytes * T NM)) (pi : list bytes -> list bytes) (collapse collapse_last : bool),
+    (forall l, Permutation (pi l) l) ->
+    forall p y lf,
+      In (p, y, lf) (decode NM (balance_rows NM pi collapse collapse_last (tree_add_all NM (empty_root NM) es))) ->
+      p <> [] /\ (exists f q, In (f, q) es /\ is_prefix_path p (segs f) = true) /\
+      go_eq_chain NM y (total_at NM es p) /\
+      (go_eq_transitive NM -> y = total_at NM es p \/ t_eqb NM y (total_at NM es p) = true).
+Proof. exact HP.Proofs.AssemblyBalance.balance_rows_amounts_any_log. Qed.
+Print Assumptions balance_rows_amounts_any_log.
+
+(** ... and the leaves of every log: all four flag settings show the same leaf
+    paths with Go-equal amounts - the same amounts where Go-equal amounts are
+    equal (exact numbers); [prefix_free] is no longer needed for this *)
+Theorem balance_modes_same_leaves_any_log :
+  forall (NM : Num) (es : list (bytes * T NM)) (pi : list bytes -> list bytes),
+    (forall l, Permutation (pi l) l) ->
+    let L := tree_leaves NM (order_tree NM pi (tree_add_all NM (empty_root NM) es)) in
+    (forall collapse collapse_last,
+        Forall2 (same_path_go_equal NM)
+                (leaf_rows NM (balance_rows NM pi collapse collapse_last (tree_add_all NM (empty_root NM) es))) L) /\
+    (go_eq_is_eq NM -> forall collapse collapse_last,
+        leaf_rows NM (balance_rows NM pi collapse collapse_last (tree_add_all NM (empty_root NM) es)) = L).
+Proof. exact HP.Proofs.AssemblyBalance.balance_modes_same_leaves_any_log. Qed.
+Print Assumptions balance_modes_same_leaves_any_log.
+
 (** "and never drops a branch": in every mode, whether or not a logged name is
     a path-prefix of another, every logged food's path is visible *)
 Theorem balance_never_drops_a_logged_food :
